@@ -57,7 +57,19 @@ def gen_value(rng: Rng, depth: int = 0):
     return {"k": gen_value(rng, depth + 1)}
 
 
+TWINS = [("Ren\u00e9e", "Rene\u0301e"), ("\u212aate", "Kate"), ("https://\u212b.example", "https://\u00c5.example"), ("\ufb01sh", "fish"),
+         ("\uac00", "\u1100\u1161"), ("admin", "\uff41\uff44\uff4d\uff49\uff4e"), ("stra\u00dfe", "strasse"), ("I", "\u0131".upper())]
+
+
 def gen_request(rng: Rng, name: str, claims: dict) -> dict:
+    if name in claims and isinstance(claims[name], (str, list)) and rng.chance(0.12):
+        # the request names a string that is only *equivalent* (Unicode normalisation, compatibility, case) to the claim: not equal
+        a, b = rng.pick(TWINS)
+        if rng.chance(0.5):
+            a, b = b, a
+        if a != b:
+            claims[name] = a if isinstance(claims[name], str) or name != "aud" else [a, "other"]
+            return {"value": b} if rng.chance(0.5) else {"values": [b, "zzz"]}
     opt = {}
     if rng.chance(0.5):
         opt["essential"] = rng.pick([True, True, False])
@@ -168,6 +180,9 @@ def run(rng: Rng, tier: str, index: int) -> RunResult:
             claims["nbf"] = int(now_i) + g.pick([0, 0, -5, 30, 300, 3600])
         if g.chance(0.85):
             claims["exp"] = int(now_i) + g.pick([1, 30, 60, 3600, 86400, 86400 * 30])
+        if g.chance(0.08):
+            # far-away instants are instants: no unit guessing (milliseconds?), no overflow
+            claims[g.pick(["exp", "nbf", "iat"])] = g.pick([10 ** 11, 1.7e12, int(now_i) * 1000, 2 ** 53, 10 ** 18, 2.1e10, 253402300800, 10 ** 30])
         if g.chance(0.12):
             claims[g.pick(["exp", "nbf", "iat"])] = g.pick(["soon", None, [1], {"t": 1}, "1700000000", True, False, float("nan"), float("inf"), float("-inf")])
         if g.chance(0.6):
@@ -252,7 +267,7 @@ def run(rng: Rng, tier: str, index: int) -> RunResult:
         key = OctKey.import_key(b"k" * 32)
         c = copy.deepcopy(claims)
         for k in ("exp", "nbf", "iat"):
-            if k in c and erng.chance(0.5) and isinstance(c[k], int):
+            if k in c and erng.chance(0.5) and isinstance(c[k], int) and not isinstance(c[k], bool) and 0 <= c[k] < 2 ** 33:
                 c[k] = datetime.datetime.fromtimestamp(c[k], datetime.timezone.utc)
                 if erng.chance(0.5):
                     c[k] = c[k].replace(tzinfo=None)
